@@ -136,7 +136,9 @@ func (o *origin) handle(w http.ResponseWriter, req *http.Request) {
 		ok = r != nil
 	}
 	if !ok {
+		o.mu.Lock()
 		entry.UnknownURI = true
+		o.mu.Unlock()
 		body := []byte("not found\n")
 		w.Header().Set("Content-Type", "text/plain")
 		w.Header().Set("Content-Length", fmt.Sprint(len(body)))
@@ -145,7 +147,9 @@ func (o *origin) handle(w http.ResponseWriter, req *http.Request) {
 		finish(404, body, true, false)
 		return
 	}
+	o.mu.Lock()
 	entry.Tag = r.Tag
+	o.mu.Unlock()
 	if r.DelayMs > 0 {
 		time.Sleep(time.Duration(r.DelayMs) * time.Millisecond)
 	}
